@@ -1966,3 +1966,183 @@ Proof.
     [|discriminate].
   intros H. inversion H. subst. apply (reentrant_registry_is_called [] sc _ _ _ _ E). reflexivity.
 Qed.
+
+(* ================================================================== hash order of the signal-type sets: whole runs *)
+Definition retype (tb : sig_tables) (l1 l2 : list Z) : sig_tables :=
+  {| tb_obs_types := l1; tb_list_types := l2; tb_emit_assign := tb_emit_assign tb; tb_emit_setitem := tb_emit_setitem tb;
+     tb_emit_delitem := tb_emit_delitem tb; tb_emit_insert := tb_emit_insert tb; tb_emit_append := tb_emit_append tb |}.
+Lemma list_op_retype tb l1 l2 d o : list_op (retype tb l1 l2) d o = list_op tb d o.
+Proof. destruct tb. reflexivity. Qed.
+Lemma em_change_retype tb l1 l2 a b : em_change (retype tb l1 l2) a b = em_change tb a b.
+Proof. reflexivity. Qed.
+
+Definition subs_eq (s s' : subs) : Prop := forall k, sget k s = sget k s'.
+Definition inst_eq (x x' : inst) : Prop := i_slots x = i_slots x' /\ subs_eq (i_subs x) (i_subs x').
+Definition state_eq (st st' : state) : Prop := Forall2 inst_eq (st_insts st) (st_insts st') /\ st_dead st = st_dead st'.
+
+Lemma zmem_perm x l l' : Permutation l l' -> zmem x l = zmem x l'.
+Proof.
+  intros P. destruct (zmem x l) eqn:E, (zmem x l') eqn:E'; try reflexivity.
+  - apply zmem_In in E. apply (Permutation_in _ P) in E. apply zmem_In in E. congruence.
+  - apply zmem_In in E'. apply (Permutation_in _ (Permutation_sym P)) in E'. apply zmem_In in E'. congruence.
+Qed.
+
+Section Retype.
+  Variable tb : sig_tables.
+  Variables l1 l2 : list Z.
+  Hypothesis P1 : Permutation (tb_obs_types tb) l1.
+  Hypothesis P2 : Permutation (tb_list_types tb) l2.
+  Hypothesis Hok : tables_ok tb = true.
+  Hypothesis Hok' : tables_ok (retype tb l1 l2) = true.
+  Let tb' := retype tb l1 l2.
+
+  Lemma types_of_perm slots n : Permutation (types_of tb slots n) (types_of tb' slots n).
+  Proof. unfold types_of. destruct (slot_at slots n) as [[?|?]|]; [exact P1|exact P2|constructor]. Qed.
+  Lemma types_mem slots n t : zmem t (types_of tb slots n) = zmem t (types_of tb' slots n).
+  Proof. apply zmem_perm. apply types_of_perm. Qed.
+  Lemma matches_retype slots nm ty k : matches tb slots nm ty k = matches tb' slots nm ty k.
+  Proof. unfold matches, type_sel. destruct ty; [rewrite types_mem; reflexivity|reflexivity]. Qed.
+  Lemma observe_ok_retype slots nm ty : observe_ok tb slots nm ty = observe_ok tb' slots nm ty.
+  Proof.
+    unfold observe_ok. f_equal. destruct ty as [|t]; cbn [types_ok]; [reflexivity|].
+    induction (sel_names slots nm) as [|n l IH]; cbn [forallb]; [reflexivity|]. rewrite types_mem, IH. reflexivity.
+  Qed.
+
+  Lemma notify_all_sim dead owner n es : forall s s', subs_eq s s' ->
+    snd (notify_all dead owner n s es) = snd (notify_all dead owner n s' es) /\
+    subs_eq (fst (notify_all dead owner n s es)) (fst (notify_all dead owner n s' es)).
+  Proof.
+    induction es as [|e t IH]; intros s s' H; cbn [notify_all]; [split; [reflexivity|exact H]|].
+    unfold notify1. rewrite (H (n, e_type e)).
+    assert (subs_eq (sset (n, e_type e) (live dead (sget (n, e_type e) s')) s)
+                    (sset (n, e_type e) (live dead (sget (n, e_type e) s')) s')) as H1
+      by (intros k; rewrite !sget_sset, (H k); reflexivity).
+    destruct (IH _ _ H1) as [D S].
+    destruct (notify_all dead owner n (sset (n, e_type e) (live dead (sget (n, e_type e) s')) s) t) as [a b].
+    destruct (notify_all dead owner n (sset (n, e_type e) (live dead (sget (n, e_type e) s')) s') t) as [a' b'].
+    cbn [fst snd] in *. split; [rewrite D; reflexivity|exact S].
+  Qed.
+
+  Lemma step_inst_sim dead owner x x' o : inst_eq x x' ->
+    inst_eq (fst (step_inst tb dead owner x o)) (fst (step_inst tb' dead owner x' o)) /\
+    snd (step_inst tb dead owner x o) = snd (step_inst tb' dead owner x' o).
+  Proof.
+    intros [Hs He]. destruct o as [i nm ty h|i nm ty h|i nm|i n v|i n vs|i n lo|hs]; cbn [step_inst].
+    - destruct (zmem h dead); [split; [split; assumption|reflexivity]|].
+      pose proof (fun k => observe_sget tb x nm ty h k Hok) as G. pose proof (fun k => observe_sget tb' x' nm ty h k Hok') as G'.
+      pose proof (observe_slots tb x nm ty h) as S. pose proof (observe_slots tb' x' nm ty h) as S'.
+      pose proof (observe_eq tb x nm ty h) as E. pose proof (observe_eq tb' x' nm ty h) as E'.
+      destruct (observe tb x nm ty h) as [y st]. destruct (observe tb' x' nm ty h) as [y' st']. cbn [fst snd] in *.
+      rewrite <- Hs, <- observe_ok_retype in *. split.
+      + split; [congruence|]. intros k. rewrite G, G', <- matches_retype, (He k). reflexivity.
+      + destruct (observe_ok tb (i_slots x) nm ty); inversion E; inversion E'; reflexivity.
+    - destruct (zmem h dead); [split; [split; assumption|reflexivity]|].
+      pose proof (fun k => unobserve_sget tb dead x nm ty h k Hok) as G.
+      pose proof (fun k => unobserve_sget tb' dead x' nm ty h k Hok') as G'.
+      pose proof (unobserve_slots tb dead x nm ty h) as S. pose proof (unobserve_slots tb' dead x' nm ty h) as S'.
+      pose proof (unobserve_eq tb dead x nm ty h) as E. pose proof (unobserve_eq tb' dead x' nm ty h) as E'.
+      destruct (unobserve tb dead x nm ty h) as [y st]. destruct (unobserve tb' dead x' nm ty h) as [y' st']. cbn [fst snd] in *.
+      rewrite <- Hs in *. split.
+      + split; [congruence|]. intros k. rewrite G, G', <- matches_retype, (He k). reflexivity.
+      + destruct (unobserve_ok (i_slots x) nm ty); inversion E; inversion E'; reflexivity.
+    - cbn [fst snd]. split; [|reflexivity]. split; [destruct nm; exact Hs|]. intros k. rewrite !clear_sget, (He k). reflexivity.
+    - rewrite <- Hs. destruct (slot_at (i_slots x) n) as [[cur fb|l]|]; try (split; [split; assumption|reflexivity]).
+      unfold tb'. rewrite em_change_retype.
+      destruct (notify_all_sim dead owner n [em_change tb (old_of_obs cur fb) (VInt v)] _ _ He) as [D S].
+      fold (old_of_obs cur fb).
+      destruct (notify_all dead owner n (i_subs x) [em_change tb (old_of_obs cur fb) (VInt v)]) as [a b].
+      destruct (notify_all dead owner n (i_subs x') [em_change tb (old_of_obs cur fb) (VInt v)]) as [a' b'].
+      cbn [fst snd] in *. split; [split; [reflexivity|exact S]|rewrite D; reflexivity].
+    - rewrite <- Hs. destruct (slot_at (i_slots x) n) as [[cur fb|cur]|]; try (split; [split; assumption|reflexivity]).
+      unfold tb'. rewrite em_change_retype.
+      destruct (notify_all_sim dead owner n [em_change tb (old_of_list cur) (VList vs)] _ _ He) as [D S].
+      fold (old_of_list cur).
+      destruct (notify_all dead owner n (i_subs x) [em_change tb (old_of_list cur) (VList vs)]) as [a b].
+      destruct (notify_all dead owner n (i_subs x') [em_change tb (old_of_list cur) (VList vs)]) as [a' b'].
+      cbn [fst snd] in *. split; [split; [reflexivity|exact S]|rewrite D; reflexivity].
+    - rewrite <- Hs. destruct (slot_at (i_slots x) n) as [[cur fb|[d|]]|]; try (split; [split; assumption|reflexivity]).
+      unfold tb'. rewrite list_op_retype. destruct (list_op tb d lo) as [d' es r|k]; [|split; [split; assumption|reflexivity]].
+      destruct (notify_all_sim dead owner n es _ _ He) as [D S].
+      destruct (notify_all dead owner n (i_subs x) es) as [a b]. destruct (notify_all dead owner n (i_subs x') es) as [a' b'].
+      cbn [fst snd] in *. split; [split; [reflexivity|exact S]|rewrite D; reflexivity].
+    - split; [split; assumption|reflexivity].
+  Qed.
+End Retype.
+
+Lemma Forall2_inst_at l l' i : Forall2 inst_eq l l' ->
+  match inst_at l i, inst_at l' i with
+  | Some x, Some x' => inst_eq x x'
+  | None, None => True
+  | _, _ => False
+  end.
+Proof.
+  intros F. unfold inst_at. destruct (i <? 0); [exact I|]. generalize (Z.to_nat i). clear i.
+  induction F as [|x x' t t' Hx F IH]; intros [|n]; cbn [nth_error]; try exact I; [exact Hx|apply IH].
+Qed.
+Lemma Forall2_set_inst l l' : Forall2 inst_eq l l' -> forall n y y', inst_eq y y' ->
+  Forall2 inst_eq (set_inst l n y) (set_inst l' n y').
+Proof.
+  induction 1 as [|x x' t t' Hx F IH]; intros [|n] y y' Hy; cbn [set_inst]; constructor; try assumption.
+  apply IH. exact Hy.
+Qed.
+Lemma view_inst_eq dead x x' : inst_eq x x' -> view_inst dead x = view_inst dead x'.
+Proof.
+  intros [Hs He]. unfold view_inst. rewrite <- Hs. f_equal.
+  apply flat_map_ext. intros n. apply flat_map_ext. intros t. rewrite (He (n, t)). reflexivity.
+Qed.
+Lemma view_eq st st' : state_eq st st' -> view st = view st'.
+Proof.
+  intros [F D]. unfold view. rewrite <- D. induction F as [|x x' t t' Hx F IH]; cbn [flat_map]; [reflexivity|].
+  rewrite (view_inst_eq _ _ _ Hx), IH. reflexivity.
+Qed.
+
+Section RetypeRuns.
+  Variable tb : sig_tables.
+  Variables l1 l2 : list Z.
+  Hypothesis P1 : Permutation (tb_obs_types tb) l1.
+  Hypothesis P2 : Permutation (tb_list_types tb) l2.
+  Hypothesis Hok : tables_ok tb = true.
+  Hypothesis Hok' : tables_ok (retype tb l1 l2) = true.
+
+  Lemma step_sim st st' o : state_eq st st' ->
+    state_eq (fst (step tb st o)) (fst (step (retype tb l1 l2) st' o)) /\
+    snd (step tb st o) = snd (step (retype tb l1 l2) st' o).
+  Proof.
+    intros [F D]. destruct (op_inst o) as [i|] eqn:E.
+    - rewrite (step_nonkill tb st o i E), (step_nonkill _ st' o i E).
+      pose proof (Forall2_inst_at _ _ i F) as A.
+      destruct (inst_at (st_insts st) i) as [x|], (inst_at (st_insts st') i) as [x'|]; try contradiction;
+        [|split; [split; assumption|reflexivity]].
+      rewrite <- D.
+      destruct (step_inst_sim tb l1 l2 P1 P2 Hok Hok' (st_dead st) i x x' o A) as [Hi Ho].
+      destruct (step_inst tb (st_dead st) i x o) as [y out]. destruct (step_inst (retype tb l1 l2) (st_dead st) i x' o) as [y' out'].
+      cbn [fst snd] in *. split; [|exact Ho]. split; cbn [st_insts st_dead]; [|reflexivity].
+      apply Forall2_set_inst; assumption.
+    - destruct (op_inst_none o E) as [hs ->]. cbn [step fst snd]. split; [|reflexivity].
+      split; cbn [st_insts st_dead]; [exact F|rewrite D; reflexivity].
+  Qed.
+
+  (* whole runs: whatever order the sets of signal types are walked in (any permutation of the two tables), every
+     observation of every history - statuses, deliveries, live registry, values - is the same *)
+  Theorem run_ops_retype : forall ops st st', state_eq st st' ->
+    run_ops tb st ops = run_ops (retype tb l1 l2) st' ops.
+  Proof.
+    induction ops as [|o t IH]; intros st st' H; cbn [run_ops]; [reflexivity|].
+    destruct (step_sim st st' o H) as [Hs Ho].
+    destruct (step tb st o) as [s1 out]. destruct (step (retype tb l1 l2) st' o) as [s1' out']. cbn [fst snd] in *.
+    subst out'. unfold observation. destruct out as [[s r] ds]. rewrite (view_eq _ _ Hs). f_equal. apply IH. exact Hs.
+  Qed.
+End RetypeRuns.
+
+Lemma state_eq_refl st : state_eq st st.
+Proof.
+  split; [|reflexivity]. induction (st_insts st) as [|x t IH]; constructor; [|exact IH].
+  split; [reflexivity|intros k; reflexivity].
+Qed.
+
+(* whatever the handlers do - subscribe, unsubscribe, assign - the value stored after `owner.x = v` returns is v *)
+Theorem outer_store_wins fuel sc v w w' obj : assign_re fuel sc v w = Some (w', obj) -> w_val w' = v.
+Proof.
+  destruct fuel as [|f]; cbn [assign_re]; [discriminate|].
+  destruct (walk f sc (w_val w) v 0 _) as [st|]; [|discriminate]. intros H. inversion H. reflexivity.
+Qed.
